@@ -1,0 +1,16 @@
+//go:build verif
+
+// Contracts for the verification machinery in /verif (comment only).
+package nsname
+
+/*@ func nsname.New
+  props C18
+  ensures (= result (|mk!nsname.NSName| {ns} {name}))
+@*/
+
+/*@ func nsname.ForObject
+  props C18
+  theory obj
+  requires (not (= {obj} vnil))
+  ensures (= result (|mk!nsname.NSName| (obj-ns {obj}) (obj-name {obj})))
+@*/
